@@ -201,7 +201,7 @@ func (c *Core) forward(bp BundleDescriptor) {
 
 	if hcBlock, err := bp.MustBundle().ExtensionBlock(bpv7.ExtBlockTypeHopCountBlock); err == nil {
 		hc := hcBlock.Value.(*bpv7.HopCountBlock)
-		hc.Increment()
+		exceeded := hc.Increment()
 		hcBlock.Value = hc
 
 		log.WithFields(log.Fields{
@@ -209,7 +209,7 @@ func (c *Core) forward(bp BundleDescriptor) {
 			"hop_count": hc,
 		}).Debug("Bundle contains an hop count block")
 
-		if exceeded := hc.IsExceeded(); exceeded {
+		if exceeded {
 			log.WithFields(log.Fields{
 				"bundle":    bp.ID(),
 				"hop_count": hc,
